@@ -130,6 +130,14 @@ class DupScenario(cmdscn.CmdScenario):
                 red = (m.method == 'run_action')
                 c = m.clone(redelivered=red)
                 w.extra['dups'].append([m.method, m.short()])
+                # overlap mode: the first delivery is still being handled
+                # (its transaction has only read so far)
+                if any(not a.done and a.msg is m for a in w.acts):
+                    h = w.extra.setdefault('hist', [])
+                    tag = 'duplicate-handled-inside-the-open-transaction-' \
+                          'of-the-first-delivery'
+                    if tag not in h:
+                        h.append(tag)
                 if red:
                     aid = json.loads(m.kwargs['action_ex_id'])
                     safe = json.loads(m.kwargs['safe_rerun'])
@@ -230,11 +238,17 @@ class DupScenario(cmdscn.CmdScenario):
         unsafe = [a for a, s in w.extra['redelivered_actions'].items()
                   if not s['safe']]
         if unsafe:
-            for a in snap['action_executions_v2']:
-                if a['id'] in unsafe:
-                    key_ = (wfscn.jl(a['input']) or {}).get('key')
+            import itertools
+            keys_ = [(wfscn.jl(a['input']) or {}).get('key')
+                     for a in snap['action_executions_v2']
+                     if a['id'] in unsafe]
+            # every non-empty subset of the redelivered non-safe-rerun
+            # actions may have failed
+            for n in range(1, len(keys_) + 1):
+                for sub in itertools.combinations(sorted(set(keys_)), n):
                     res = dict(self.results)
-                    res[key_] = ['E']
+                    for key_ in sub:
+                        res[key_] = ['E']
                     models.append(refmodel.allowed_outcomes(
                         self.prog, self.wf_input, res))
         impl = refmodel.project_impl(wfscn.outcome_of(snap))
